@@ -16,3 +16,14 @@ VARIANTS = [
     ("benign-writer-comma-ne", "C06", W, "if bibtex_format.trailing_comma or i < len(block.fields) - 1:", "if i != len(block.fields) - 1 or bibtex_format.trailing_comma:", "silent"),
     ("benign-writer-fstring", "C06", W, '    return ["@comment{", block.comment, "}\\n"]', '    return [f"@comment{{{block.comment}}}\\n"]', "silent"),
 ]
+
+VARIANTS += [
+    ("rt-string-keyword", "C05", W, '        "@string{",', '        "@strng{",', "fire"),
+    ("rt-string-no-sep", "C05,C06", W, "        block.key,\n        VAL_SEP,\n        block.value,", "        block.key,\n        \" \",\n        block.value,", "fire"),
+    ("rt-entry-no-comma-after-key", "C05,C06", W, 'res = ["@", block.entry_type, "{", block.key, ",\\n"]', 'res = ["@", block.entry_type, "{", block.key, "\\n"]', "fire"),
+    ("rt-comment-paren", "C05,C06", W, 'return ["@comment{", block.comment, "}\\n"]', 'return ["@comment(", block.comment, ")\\n"]', "fire"),
+    ("rt-default-unparse-quotes-reuse", "C05,C20", "bibtexparser/middlewares/parsestack.py", '            default_enclosing="{",', '            default_enclosing="\\"",', "fire"),
+    ("rt-enclose-missing-close", "C05,C10", "bibtexparser/middlewares/enclosing.py", '            return f"{{{value}}}"', '            return f"{{{value}"', "fire"),
+    ("rt-entry-closing-missing-newline-ok", "C05", W, '    res.append("}\\n")', '    res.append("}\\n\\n")', "silent"),
+    ("rt-writer-global-counter", "C05", W, "    string_pieces = []\n\n    for i, block in enumerate(library.blocks):", "    string_pieces = []\n    import time\n    string_pieces.append(\"% \" + str(time.time()) + \"\\n\")\n\n    for i, block in enumerate(library.blocks):", "fire"),
+]
